@@ -16,6 +16,7 @@ CONFIG = {
         "util": [("data/transactions/logic", "logic")],
         "env": {"quick": {"VERIF_C34_B": 4000}, "thorough": {"VERIF_C34_B": 150000}},
         "timeout": {"quick": 900, "thorough": 3000},
+        "search_tier": "quick",
     }],
     "rule": "x: every opcode byte 0..255 (every sub-opcode byte of a prefix opcode; every field byte of an opcode with a field "
             "immediate -- quick: up to 2 past the group plus 254/255, thorough: all 256) x every program version 0..LogicVersion x "
